@@ -274,6 +274,12 @@ def run_case(case):
            'bm': bool(bm), 'cf': cf[1] if cf else None}
     if any(ow.spoofed_header(c['stderr']) for c in res.children):
         sig['spoofed_header'] = True
+        # the known finding is about writes to the real file descriptor 2; a
+        # header look-alike that a test wrote to sys.stdout / sys.stderr must
+        # never get there
+        via = {w[0] for s_ in sc if isinstance(s_, dict) for w in s_.get('w', [])
+               if ow._triple(w[1].split('\n')[0]) is not None}
+        sig['spoof_via'] = 'fd2' if via == {'fd2'} else 'stream:' + ','.join(sorted(via))
     child_fault_effective = False
     if cf and state['hit']:
         # the fault is real unless the mangled bytes equal the original report
